@@ -213,8 +213,9 @@ def chk_case(inp, c):
     ok_call, out = c.try_call(est.minimize_variance, B.copy(), **args, **kw)
     if not ok_call:
         exc = out
-        if inp["L1"] is not None and isinstance(exc, RuntimeError):
-            # raising is correct when no intensity vector meets the error bound and the L1 window together
+        if inp["L1"] is not None:
+            # raising is correct when no intensity vector meets the error bound and the L1 window together (whatever the
+            # exception type: an infeasible conic problem may also surface as the solver's numerical failure)
             verdicts = []
             for r in range(N):
                 L1r = float(inp["L1"]) if np.ndim(inp["L1"]) == 0 else float(inp["L1"][r])
